@@ -263,6 +263,8 @@ class Shelxfile():
 
     def _assign_atoms_to_restraints(self) -> List[str]:
         warnings = []
+        # Always check against the current atom list, not against a name index cached before an edit:
+        self.atoms._atomsdict.clear()
         for restraint in self.restraints:
             bad_atoms = []
             class_without_residues = bool(restraint.residue_class) and sum(restraint.residue_number) == 0
